@@ -1196,6 +1196,11 @@ pub struct PipeCase {
     /// printer through the preprocessor's reader)
     #[serde(default)]
     pub pre: bool,
+    /// with `pre`: 0 = `cat` (killed by SIGPIPE when rg stops reading), 1 = a script that ignores SIGPIPE, so
+    /// that its `cat` notices the failed write itself, says so on stderr and exits 1 (what every Python
+    /// preprocessor does): the consumer's departure must still end the run silently with the usual status
+    #[serde(default)]
+    pub pre_kind: u8,
 }
 
 const BUFFER_KS: [usize; 24] = [
@@ -1242,9 +1247,18 @@ pub fn check_pipe(c: &PipeCase) -> Verdict {
     build_tree(t, &root, &all, false);
     let any = if c.mode.is_files() { !t.files.is_empty() } else { t.files.iter().any(|f| f.nmatch > 0) };
     let want = expected_status(c.mode, any, false);
+    let script = tmp.path.join("pre.sh");
+    if c.pre && c.pre_kind == 1 {
+        std::fs::write(&script, "#!/bin/sh\ntrap '' PIPE\ncat \"$1\"\n").expect("write pre.sh");
+        chmod(&script, 0o755);
+    }
     let mk = || {
         let rg = base_rg(&root, c.mode, c.threads, false);
-        let rg = if c.pre && !c.mode.is_files() { rg.arg("--pre").arg("cat") } else { rg };
+        let rg = if c.pre && !c.mode.is_files() {
+            if c.pre_kind == 1 { rg.arg("--pre").arg(script.to_str().expect("utf-8 temp path")) } else { rg.arg("--pre").arg("cat") }
+        } else {
+            rg
+        };
         rg.arg(".").timeout(Duration::from_secs(10))
     };
     let case_json = || serde_json::to_string(c).unwrap_or_default();
@@ -1327,6 +1341,8 @@ pub fn check_pipe(c: &PipeCase) -> Verdict {
     info.class_if(len > 65536 && c.mode.is_files(), "files_mode_output_over_64KiB");
     info.class_if(!any, "nothing_to_print");
     info.class_if(c.pre && !c.mode.is_files(), "through_preprocessor");
+    info.class_if(c.pre && c.pre_kind == 1 && !c.mode.is_files(), "through_preprocessor_that_reports_its_broken_pipe");
+    info.class_if(c.pre && c.pre_kind == 1 && !c.mode.is_files() && len > 8192 && c.threads == 1, "serial_reporting_preprocessor_output_over_8KiB");
     info.class_if(c.pre && !c.mode.is_files() && len > 8192 && c.threads == 1, "serial_preprocessor_output_over_8KiB");
     info.class_if(unconfirmed_timeouts > 0, "timeout_not_confirmed_by_second_run");
     info.class_if(ks.len() >= 60, "k_60_or_more");
@@ -1420,8 +1436,11 @@ pub fn gen_pipe(t: &mut Tape, all_k_limit: u32) -> PipeCase {
         k_seeds.push(t.raw());
     }
     // (drawn last so that the rest of the case does not depend on it)
-    let pre = t.chance(1, 4);
-    PipeCase { tree, mode, threads, all_k_limit, k_seeds, pre }
+    let pre = t.chance(1, 2);
+    let pre_kind = if pre && t.chance(1, 2) { 1 } else { 0 };
+    // (the serial driver is where a file's search itself meets the closed pipe while the preprocessor runs)
+    let threads = if pre_kind == 1 && t.chance(3, 4) { 1 } else { threads };
+    PipeCase { tree, mode, threads, all_k_limit, k_seeds, pre, pre_kind }
 }
 
 // ------------------------------------------------------- shrink budget ---
